@@ -76,27 +76,27 @@ CHECKS = {
   technique="TLA+ spec Reader.tla (dirty flag, header re-read, page cache, schema cache, fixed map) model-checked exhaustively; TLC-simulated behaviours replayed on a long-lived real handle against real SQLite commits; history validated by TLC (TraceReader.tla over BTree.tla)",
   text="Reader.tla models the handle protocol and the writer's counters; TLC explores every interleaving of lock/header/page/schema steps with commits of kind dml/ddl/grow/vacuum/reuse (3.1M states) for Freshness, NoFalseError, HeaderCurrent, CacheCurrent. "
        "Behaviours simulated from the same model (plus one fixed history with every commit kind incl. ALTER, CREATE/DROP TABLE/INDEX, growth, VACUUM, page-size-changing VACUUM, page reuse, no-op) are replayed: read brackets become real operations on ONE long-lived handle (high-level API and explicit RLock/RUnlock bracket), commits are real SQLite transactions in another process. "
-       "TraceReader.tla carries the handle state along, judges every read against the Reference on the page graph of the snapshot committed at that moment (independent reader, cross-checked with SQLite), and predicts exactly which pages must be re-read or may come from the cache; schema listings after DDL are compared with SQLite's.",
+       "TraceReader.tla carries the handle state along, judges every read against the Reference on the page graph of the snapshot committed at that moment (independent reader, cross-checked with SQLite), and predicts exactly which pages must be re-read or may come from the cache; schema listings after DDL are compared with SQLite's. Unbounded: ReaderProof.tla (TLAPS, 79 obligations) proves Freshness/NoFalseError for files of any size, any number of commits, any cache limit. Histories start with the change counter about to wrap; a table larger than the 100-page cache and overflow-neighbour rows are read in every bracket; prepared statements are re-executed after schema changes.",
   note=NOTE + "commits happen only between operations (guaranteed by the lock protocol, C06/C07); histories are sampled (seeded), the protocol model is exhaustive only in small scope (4 pages, 3 commits)",
   design="6 C08, 3.5"),
  "C06": dict(
   technique="TLA+ spec Locks.tla model-checked over all interleavings; trace validation by TLC (TraceLocks.tla, silent steps for unobservable fcntl calls) of schedules executed by real processes with the kernel lock table from /proc/locks after every step",
   text=LK + "TLC checks SharedWhileReading, Released, NoWriterWhileReading, YieldToWriters, WriterLadderOK for 2 handles in 2 processes + 2 writers (all interleavings), and exhibits the same-process counterexample. "
        "Real schedules: every high level operation x exit path (normal, early stop, missing table/column/index, injected read error incl. nested lookup, callback panic); reader parked after the lock / at a page read / inside the callback while a real SQLite connection tries BEGIN IMMEDIATE, UPDATE, COMMIT; a second handle opening/reading/closing meanwhile (other process and same process); scans after the file grew. "
-       "After every step the kernel's own lock table is recorded; TLC accepts a schedule only if the table is exactly the specification's after every step, and evaluates the property on the recorded tables. The same-process lock loss is a listed known finding.",
+       "After every step the kernel's own lock table is recorded; TLC accepts a schedule only if the table is exactly the specification's after every step, and evaluates the property on the recorded tables. The same-process lock loss is a listed known finding. Unbounded: LocksProof.tla (TLAPS, 426 obligations, thorough tier) proves the invariants for any number of handles in separate processes, writers and foreign lockers. Further schedules: nested calls from the callback, errors right after the lock (hot journal, WAL switch, faults at the header re-read), a foreign process locking only the shared range (second lock step refused), readers refused by a writer in PENDING/EXCLUSIVE; an operation that blocks for 20 s is recorded as an event the specification has no action for.",
   note=NOTE + "Linux /proc/locks as the observation of the kernel table; interleavings INSIDE one RLock call are explored in the model only (not drivable on real processes); Windows pager not covered",
   design="6 C06, 3.6"),
  "C07": dict(
   technique="TLA+ spec Locks.tla model-checked; trace validation by TLC of real schedules with a real SQLite writer parked in every lock state",
   text=LK + "TLC checks YieldToWriters/CommittedOnly over all interleavings. A real SQLite connection is parked in UNLOCKED, SHARED, RESERVED (clean/dirty, journal header with and without magic on disk), PENDING (COMMIT refused by another reader), EXCLUSIVE (BEGIN EXCLUSIVE, cache spill) -- confirmed from /proc/locks -- and every read operation of a fresh and of a long-lived, one-commit-behind handle in another process is issued. "
-       "TLC accepts the recorded schedule only if every lock attempt succeeded or failed as the specification says and every successful read saw exactly the committed version (marker row).",
+       "TLC accepts the recorded schedule only if every lock attempt succeeded or failed as the specification says and every successful read saw exactly the committed version (marker row). Also: a writer killed while EXCLUSIVE with spilled pages (512- and 4096-byte sectors) with a content check on a table the handle has not cached; every reported refusal must be the outcome of a lock attempt of that operation (TraceLocks att). LocksProof.tla in the thorough tier.",
   note=NOTE + "Linux /proc/locks; the marker row identifies the committed version; error => zero callbacks is checked on the recorded results",
   design="6 C07, 3.6"),
  "C09": dict(
   technique="TLA+ spec Journal.tla (writer transaction at system-call grain, crashes, SQLite's recovery rule vs sqlittle's hot-journal rule) model-checked; crash-point enumeration on a real SQLite writer under an LD_PRELOAD shim, syscall traces and reader outcomes validated by TLC (TraceJournal.tla)",
   text="Journal.tla models every write/sync/truncate/unlink of a spilling SQLite transaction (journal segments, header magic/count protocol, write-ahead rule, DELETE/TRUNCATE/PERSIST finalisation, synchronous FULL/OFF), torn writes and process death; TLC checks NeverReadsUnfinished, PostCommitReadable and AtomicCommit for all 6 mode combinations. "
        "A real SQLite writer is killed before its k-th file operation for every k and in the middle of every write (sampled in the quick tier, always all database writes and header/finalisation calls) for several page sizes; each image is read by a fresh sqlittle handle and by a handle opened before the crash (cached and uncached) and recovered by real SQLite. "
-       "TLC replays the completed system calls through the writer actions (so the model of SQLite is validated against real SQLite), requires SqliteRecovered = what SQLite really recovered, judges C09 on the recorded outcomes and compares them with the model's reader rule.",
+       "TLC replays the completed system calls through the writer actions (so the model of SQLite is validated against real SQLite), requires SqliteRecovered = what SQLite really recovered, judges C09 on the recorded outcomes and compares them with the model's reader rule. Also: sectors larger than the page (journal header written in chunks: HdrChunks/JHdrPad), journal leftovers of every length after a completed commit, cold handles, an explicit two-call transaction after the crash, and a reader parked between the call of an operation and its lock request while the writer dies.",
   note=NOTE + "crash = process death (completed writes persist in order); no power-loss reordering; journal modes MEMORY/OFF/WAL out of scope; LD_PRELOAD must see all file operations (unexplained call sequences fail the run with exit 2)",
   design="6 C09, 3.7", category="model_checking"),
  "C10": dict(
@@ -121,7 +121,7 @@ CHECKS = {
   technique="TLA+ spec Driver.tla (producer/consumer, cancel, wait group, error hand-off) model-checked incl. deadlock; trace validation by TLC (TraceDriver.tla, producer steps silent) of scenarios run through database/sql on the real driver",
   text="Driver.tla models the producer goroutine (lock, scan, select{ctx.Done | send}, unlock, store error, wg.Done, close channel) and the consumer (Next*, Close, external cancel); TLC checks Cleanup, ErrBeforeClose, NoSilentShort, PrefixDelivered, FailureSurfaces and deadlock freedom for up to 3 rows and every fault position. "
        "Real scenarios through database/sql: Next x k then Close / cancel+Close / drain for many k, GOMAXPROCS 1 and 4, producer given a head start or not, prepared statements kept open, read faults at each of the first page reads of the statement's handle, statements that must fail; after each: file lock of the process (/proc/locks), goroutine count, pager activity after Close returned. "
-       "TLC accepts a scenario iff Driver.tla explains its observations; complete result sets are compared with the native Select by TLC; `*` expansion is checked against the table's column order.",
+       "TLC accepts a scenario iff Driver.tla explains its observations; complete result sets are compared with the native Select by TLC; `*` expansion is checked against the table's column order. Unbounded: DriverProof.tla (TLAPS, 57 obligations) for any number of rows. Also: short reads and really truncated files, the page reads done while Close runs on a large table, a row that takes 0.5 s to load interrupted by Close, prepared statements re-executed after ALTER TABLE, two result sets open on one sql.Conn / sql.Tx, the fault scenarios again in a race-detector build.",
   note=NOTE + "interleavings are reached through GOMAXPROCS and short yields (sampled), not driven by gates; goroutine leaks judged after a settle period",
   design="6 C19, 3.12"),
  "C20": dict(
@@ -133,7 +133,7 @@ CHECKS = {
  "C05": dict(
   technique="TLA+ spec Corrupt.tla (traversal on all small ill-formed page graphs; named corruption recipes) model-checked; every recipe applied to real files, every public operation run under a read budget in a worker process, outcomes and recipe coverage judged by TLC (TraceCorrupt.tla)",
   text="Corrupt.tla runs the traversal (recursion budget, overflow chain walk) on ALL page graphs of 2 (thorough: 3) pages with pointers null/self/ancestor/wrong kind/beyond the file and payloads claiming more overflow pages than exist: Robust (bounded page reads, no undefined step) holds for the repaired chain walk and is refuted for the unbounded one. "
-       "It also names the corruption recipes (17 sites x adversarial classes). Every recipe is applied several times (seeded site choice) to SQLite-written files of several page sizes (incl. overflowing index entries), plus arbitrary bytes as -journal; a worker runs ~150-300 public operations per image (open, schema inspection, all scans, Rowid, ScanMin/ScanEq/IndexedSelectEq/PKSelect with keys of 8 classes, ScanRange, Select, IndexedSelect, Columns, the driver) under recover() and a deterministic page-read budget; panic, exceeded budget or a dead process is a violation with the image as replay; TLC judges outcomes and that every named recipe was exercised.",
+       "It also names the corruption recipes (17 sites x adversarial classes). Every recipe is applied several times (seeded site choice) to SQLite-written files of several page sizes (incl. overflowing index entries), plus arbitrary bytes as -journal; a worker runs ~150-300 public operations per image (open, schema inspection, all scans, Rowid, ScanMin/ScanEq/IndexedSelectEq/PKSelect with keys of 8 classes, ScanRange, Select, IndexedSelect, Columns, the driver) under recover() and a deterministic page-read budget; panic, exceeded budget or a dead process is a violation with the image as replay; TLC judges outcomes and that every named recipe was exercised. Systematic families on a small file: every structured byte x 6 classes (about 12 000 images), every payload length shortened by 2..8, every journal header field x every power of two, cell counts around the end of the page on empty pages, ~280 sqlite_master definitions that parse but do not describe the stored tree or are cut at every length, a collation the reader does not know.",
   note=NOTE + "'all byte strings' is not enumerable: recipe classes x generated base files x seeded site instances; hang = exceeded page-read budget (exponential-but-finite work below the budget is not flagged); allocation is bounded through the read budget only",
   design="6 C05, 3.9", category="model_checking"),
 }
